@@ -33,6 +33,10 @@ def gen(rng, tier):
             hor = rng.choice(G1_H + ([40, 60, 17.25] if tier == "thorough" else []))
             yield dict(mode="g1", form=rng.choice(["arc", "path", "seq", "seqN"]), horizon=hor)
             continue
+        if k % 20 == 17:
+            from .c16 import small_mirp
+            yield dict(mode="getters", spec=small_mirp(rng), strict=rng.random() < 0.5, choices=[rng.randrange(6) for _ in range(12)])
+            continue
         if k % 20 == 18:
             yield dict(mode="random", form=rng.choice(["arc", "path", "seq", "seqN"]), seed=rng.randrange(10 ** 4),
                        ns=rng.randint(1, 2), nd=rng.randint(1, 2), horizon=rng.choice([25, 40]))
@@ -201,6 +205,76 @@ def correspond_heuristic(res, drv, case, form, rnd_label):
             res.disagree("path pool after the heuristic", [[int(i) for i in r] for r in o.routes], m["pool"])
 
 
+def getters_case(res, drv, case):
+    """the MIRP wrappers (time grid, high cost, vehicle count, sequence length, route pool) against their Lean models"""
+    spec = case["spec"]
+    m, results = MU.build_py(spec)
+    if any(r[0] != "ok" for r in results):
+        res.nontrivial = False
+        return
+    req = MU.request(spec)
+    toks = req.split()
+    rep = drv.ask("mirp.getters " + " ".join(toks[1:]) + f" {1 if case['strict'] else 0} {len(case['choices'])} {' '.join(map(str, case['choices']))}")
+    head, groups = core.split_reply(rep)
+    if head != "ok":
+        res.disagree("mirp.getters status", "ok", rep[:80])
+        return
+    # --- arc-based: time grid
+    ab = m.get_arc_based(make_feasible=False)
+    grid = [F(t) for t in ab.time_points]
+    mgrid = [Fraction(t) for t in groups[0][1:]]
+    if grid != mgrid:
+        res.disagree("get_arc_based time grid", grid, mgrid)
+    # --- high cost
+    try:
+        hc = F(m.estimate_high_cost())
+        mhc = None if groups[1][0] == "none" else Fraction(groups[1][0])
+        if mhc is None or abs(hc - mhc) > Fraction(1, 10 ** 9) * max(1, abs(mhc)):
+            res.disagree("estimate_high_cost", hc, mhc)
+    except ValueError:
+        if groups[1][0] != "none":
+            res.disagree("estimate_high_cost", "raises", groups[1][0])
+    # --- sequence-based: V, L, graph
+    try:
+        sb = m.get_sequence_based(make_feasible=False, strict=case["strict"])
+        iseq = (int(sb.max_vehicles), int(sb.max_sequence_length), VU.graph_of(sb))
+    except ValueError:
+        iseq = None
+    if groups[2][0] == "none":
+        if iseq is not None:
+            res.disagree("get_sequence_based", iseq[:2], "none")
+    else:
+        tk = MU.Toks(groups[2])
+        mv, ml = tk.nat(), tk.nat()
+        mg = MU.parse_graph(tk)
+        if iseq is None or (iseq[0], iseq[1]) != (mv, ml) or (iseq[2]["nodes"], iseq[2]["arcs"]) != (mg["nodes"], mg["arcs"]):
+            res.disagree("get_sequence_based (V, L, graph)", None if iseq is None else iseq[:2], (mv, ml))
+    # --- path-based: pool under a scripted sampler
+    from vrpqubo.routing_problem.formulations import path_based_rp as pbm
+    restore = pbm.get_sampled_key
+    counter = [0]
+    choices = case["choices"]
+
+    def scripted(key_val, explore):
+        assert key_val, "Dictionary to sample is empty"
+        keys = list(key_val.keys())
+        k = keys[choices[counter[0] % len(choices)] % len(keys)]
+        counter[0] += 1
+        return k, min(key_val, key=key_val.get)
+    pbm.get_sampled_key = scripted
+    try:
+        pb = m.get_path_based(make_feasible=False)
+    finally:
+        pbm.get_sampled_key = restore
+    tk = MU.Toks(groups[3])
+    mpool = tk.lst(lambda: tk.lst(tk.nat))
+    mcosts = [Fraction(t) for t in groups[4][1:]]
+    if [[int(i) for i in r] for r in pb.routes] != mpool or [F(c) for c in pb.route_costs] != mcosts:
+        res.disagree("get_path_based pool (scripted sampler)", [[int(i) for i in r] for r in pb.routes][:6], mpool[:6])
+    res.nontrivial = len(pb.routes) >= 1
+    res.features.append(f"pool:{min(len(pb.routes), 6)}")
+
+
 def preconditions(case, o, form):
     """documented preconditions under which path / sequence heuristics must succeed"""
     g = VU.graph_of(o)
@@ -219,6 +293,9 @@ def run_case(case, drv):
     res = Result(key=core.case_key(case))
     mode = case.get("mode", "vrptw")
     res.features.append(f"mode:{mode}")
+    if mode == "getters":
+        getters_case(res, drv, case)
+        return res
     if mode in ("g1", "random"):
         form = case["form"]
         res.features.append(f"form:{form}")
